@@ -171,7 +171,10 @@ func (ef *Filter) Process(ctx context.Context, e *eventlogger.Event) (*eventlogg
 
 	// depending on what filter operations are initialized, a wrapper may or may
 	// not be required.
-	if ef.Wrapper == nil && optWrapper == nil {
+	ef.l.RLock()
+	missingWrapper := ef.Wrapper == nil && optWrapper == nil
+	ef.l.RUnlock()
+	if missingWrapper {
 		for _, filterOperation := range filterOps {
 			switch filterOperation {
 			case EncryptOperation, HmacSha256Operation:
